@@ -262,9 +262,19 @@ func genProgram(r *vf.Rng, maxLen int) Input {
 			code = append(code, pushOf(r, off)...)
 			code = append(code, 0x51)
 			depth++
-		default:
+		case k < 99:
 			code = append(code, 0x59)
 			depth++
+		default: // storage: write the top under a small key, or read a small key
+			key := big.NewInt(int64(r.Intn(3)))
+			code = append(code, pushOf(r, key)...)
+			if r.Bool() {
+				code = append(code, 0x55)
+				depth--
+			} else {
+				code = append(code, 0x54)
+				depth++
+			}
 		}
 		if depth > 1000 {
 			break
@@ -316,6 +326,69 @@ func genMemory(r *vf.Rng) Input {
 	return Input{Code: hex.EncodeToString(code), Gas: gas, Pool: randPool(r), Class: "memory"}
 }
 
+// SSTORE / SLOAD sequences: same slot, different slots, overwrites, zero values,
+// interleaved with arithmetic on what was read back
+func genStorage(r *vf.Rng) Input {
+	var code []byte
+	nk := 1 + r.Intn(4)
+	keys := make([]*big.Int, nk)
+	for i := range keys {
+		switch r.Intn(4) {
+		case 0:
+			keys[i] = big.NewInt(int64(r.Intn(4)))
+		case 1:
+			keys[i] = randWord(r)
+		case 2:
+			keys[i] = new(big.Int).Sub(pow2(256), big.NewInt(int64(1+r.Intn(3))))
+		default:
+			keys[i] = new(big.Int).SetBytes(r.Bytes(32))
+		}
+	}
+	depth := 0
+	n := 2 + r.Intn(14)
+	for i := 0; i < n; i++ {
+		k := keys[r.Intn(nk)]
+		switch x := r.Intn(100); {
+		case x < 45: // store
+			v := randWord(r)
+			if r.Chance(25) {
+				v = big.NewInt(0)
+			}
+			if depth > 0 && r.Chance(30) { // store something computed
+				code = append(code, 0x80) // DUP1
+			} else {
+				code = append(code, pushOf(r, v)...)
+			}
+			code = append(code, pushOf(r, k)...)
+			code = append(code, 0x55)
+		case x < 85: // load
+			code = append(code, pushOf(r, k)...)
+			code = append(code, 0x54)
+			depth++
+		case x < 93 && depth >= 2:
+			code = append(code, compOpcodes[r.Intn(len(compOpcodes))])
+			if arityOf(code[len(code)-1]) == 3 && depth < 3 {
+				code[len(code)-1] = 0x01
+			}
+			depth -= arityOf(code[len(code)-1]) - 1
+		default: // load a never written slot
+			code = append(code, pushOf(r, randWord(r))...)
+			code = append(code, 0x54)
+			depth++
+		}
+	}
+	gas := uint64(1000000)
+	switch r.Intn(12) {
+	case 0:
+		gas = uint64(2200 + r.Intn(200)) // around the 2300 sentry
+	case 1:
+		gas = uint64(20000 + r.Intn(3000))
+	case 2:
+		gas = uint64(1 + r.Intn(60000))
+	}
+	return Input{Code: hex.EncodeToString(code), Gas: gas, Pool: randPool(r), Class: "storage"}
+}
+
 // malformed / exceptional streams
 func genMalformed(r *vf.Rng) Input {
 	var code []byte
@@ -326,7 +399,7 @@ func genMalformed(r *vf.Rng) Input {
 		for i := 0; i < r.Intn(3); i++ {
 			code = append(code, pushOf(r, randWord(r))...)
 		}
-		ops := []byte{0x08, 0x09, 0x01, 0x0a, 0x50, 0x51, 0x52, 0x53, 0x80, 0x8f, 0x90, 0x9f, 0x15, 0x19}
+		ops := []byte{0x08, 0x09, 0x01, 0x0a, 0x50, 0x51, 0x52, 0x53, 0x54, 0x55, 0x80, 0x8f, 0x90, 0x9f, 0x15, 0x19}
 		code = append(code, ops[r.Intn(len(ops))])
 		class = "underflow"
 	case 1: // invalid opcode after some work
@@ -471,6 +544,16 @@ func compare(in Input, o Obs) (what, detail string) {
 		if string(sr.Mem) != string(o.Mem) {
 			return "memory differs from the specification", fmt.Sprintf("len %d vs %d", len(o.Mem), len(sr.Mem))
 		}
+		for i, k := range sr.StorKeys {
+			want := sr.Stor[k.String()].String()
+			if i >= len(o.StorVals) || o.StorVals[i] != want {
+				got := "?"
+				if i < len(o.StorVals) {
+					got = o.StorVals[i]
+				}
+				return "storage does not hold what was written", fmt.Sprintf("slot %s holds %s, specification says %s", k.String(), got, want)
+			}
+		}
 	}
 	return "", ""
 }
@@ -538,6 +621,8 @@ func runDigest(o Obs) *big.Int {
 	if o.Status == StOK {
 		d = dlist(d, bigs(o.Stack))
 		d = dbytes(d, o.Mem)
+		d = dlist(d, bigs(o.StorKeys))
+		d = dlist(d, bigs(o.StorVals))
 	}
 	return d
 }
@@ -646,12 +731,13 @@ func gen(seed uint64, n int, outDir, corpusDir string) {
 			return
 		}
 		o := runImpl(code, in.Gas, in.pool())
+		readStorage(&o, sr.StorKeys)
 		cases = append(cases, cs{in, o})
 		res.Count("class_" + in.Class)
 		res.Count("status_" + statusNames[o.Status])
 		nontrivial := false
 		for _, op := range sr.Ops {
-			if _, ok := compOps[op]; ok || op == 0x0a || (op >= 0x51 && op <= 0x53) {
+			if _, ok := compOps[op]; ok || op == 0x0a || (op >= 0x51 && op <= 0x55) {
 				nontrivial = true
 			}
 			opsSeen[opName(op)]++
@@ -680,8 +766,10 @@ func gen(seed uint64, n int, outDir, corpusDir string) {
 			add(genSingle(r, op))
 		case k < 75:
 			add(genProgram(r, 160))
-		case k < 87:
+		case k < 84:
 			add(genMemory(r))
+		case k < 91:
+			add(genStorage(r))
 		default:
 			add(genMalformed(r))
 		}
@@ -744,6 +832,7 @@ func replay(file string) {
 	fmt.Println("program:", disasm(code))
 	fmt.Println("gas:", in.Gas, "pool seed:", in.Pool)
 	o := runImpl(code, in.Gas, in.pool())
+	readStorage(&o, specRun(code, in.Gas).StorKeys)
 	fmt.Printf("implementation: status=%s gas_left=%d steps=%d stack=%v\n", statusNames[o.Status], o.GasLeft, o.Steps, o.Stack)
 	sr := specRun(code, in.Gas)
 	var ss []string
